@@ -453,7 +453,7 @@ func (p *printer) StmtIf(n *ast.StmtIf) {
 
 func (p *printer) StmtInlineHtml(n *ast.StmtInlineHtml) {
 	p.state = PrinterStatePHP
-	if p.last != nil && !bytes.HasSuffix(p.last, []byte("?>")) && !bytes.HasSuffix(p.last, []byte("?>\n")) {
+	if p.last != nil && !bytes.HasSuffix(bytes.TrimRight(p.last, "\r\n"), []byte("?>")) {
 		p.write([]byte("?>"))
 	}
 
